@@ -1938,7 +1938,8 @@ func (ls *LState) Status(th *LState) string {
 		status = "dead"
 	} else if ls.G.CurrentThread == th {
 		status = "running"
-	} else if ls.Parent == th {
+	} else if th.Parent != nil {
+		// active but not running: it has resumed another coroutine and waits for it
 		status = "normal"
 	}
 	return status
@@ -1961,7 +1962,7 @@ func (ls *LState) Resume(th *LState, fn *LFunction, args ...LValue) (ResumeState
 		})
 	}
 
-	if ls.G.CurrentThread == th {
+	if ls.G.CurrentThread == th || th.Parent != nil {
 		return ResumeError, newApiErrorS(ApiErrorRun, "can not resume a running thread"), nil
 	}
 	if th.Dead {
